@@ -110,8 +110,32 @@ Theorem c19_client_model marshal parse_view (L : json_law marshal parse_view) r 
   (forall t, body r = BText t -> parse_view t = tv) ->
   (forall m, body r = BEnv [] m -> forallb (fun kv => marshalable (snd kv)) m = true) ->
   (forall cb m, body r = BEnv cb m -> cb = []) ->
-  api_request marshal parse_view r = client (status r) (body_view (body r) tv).
+  forall jtv, api_request marshal parse_view r = client (status r) (body_view (body r) tv jtv).
 Proof. exact (api_request_abs marshal parse_view L r tv). Qed.
+
+(* replaced Filter hooks (public variables of the package): with FilterData replaced, whatever
+   object the hook returns is what is marshalled and sent -- with the status the object declares
+   through HTTPStatus, 200 otherwise -- and the client half sees exactly that object: code
+   missing / not a number / non-zero are errors, code 0 is success only under a 2xx status. *)
+Theorem c19_filter_hook marshal parse_view (L : json_law marshal parse_view) g cb st m merr :
+  members_marshalable m = true ->
+  respond g cb (PRaw st m merr) =
+    {| status := match st with Some s => s | None => 200 end; ctyp := if is_nil cb then CtJson else CtJs;
+       server := srv_name g; body := BEnv cb m |}
+  /\ api_request marshal parse_view (respond g [] (PRaw st m merr))
+     = client (match st with Some s => s | None => 200 end) (view_of_members m).
+Proof. intros H. split; [exact (raw_resp g cb st m merr H)|exact (raw_client marshal parse_view L g st m merr H)]. Qed.
+
+(* the client half on a JSONP body: whenever the decoder refuses the text callback(json) -- it is
+   not a JSON document -- ApiRequest reports an error *)
+Theorem c19_client_jsonp st : client st VFail = (0, true).
+Proof. reflexivity. Qed.
+
+(* strings that are not valid UTF-8: what the decoder reads back is the string with every
+   offending byte replaced by U+FFFD (utf8_fix, transcribed from unicode/utf8 and tied by the
+   correspondence run); ASCII strings are unchanged *)
+Theorem c19_utf8_ascii s : Forall (fun c => (c < 128)%N) s -> utf8_fix s = s.
+Proof. exact (utf8_fix_ascii s). Qed.
 
 (* WriteVersion (the version helper): for every version text the answer is the success envelope
    of the object {extra, major, minor, revision, signature = Server, version = the text}; for a
@@ -149,6 +173,9 @@ Print Assumptions c19_unmarshalable.
 Print Assumptions c19_never_confused.
 Print Assumptions c19_plain_2xx_refuted.
 Print Assumptions c19_client_model.
+Print Assumptions c19_filter_hook.
+Print Assumptions c19_client_jsonp.
+Print Assumptions c19_utf8_ascii.
 Print Assumptions c19_version.
 Print Assumptions c19_version_fields.
 Print Assumptions c19_examples.
